@@ -8,12 +8,14 @@ use crate::sx::{read_one, write_char, write_string, Sx};
 pub const NSTR: usize = 5;
 
 /// palette: simple lower-casing and Unicode simple case folding coincide on all of these
-const CHARS: [char; 30] = [
+const CHARS: [char; 38] = [
     'a', 'Z', 'm', '0', '9', ' ', '~', '(', // 1 byte
     'é', 'É', 'λ', 'Λ', 'ñ', 'Ж', 'ж', 'ö', // 2 bytes
     '日', '本', '€', '★', 'ᄀ', // 3 bytes
     '𝒳', '🐶', '𐐷', '𐐏', '𝟘', // 4 bytes
     'b', 'B', 'z', 'A',
+    // case pairs whose two forms have different UTF-8 widths
+    '\u{212A}', 'k', '\u{212B}', 'å', '\u{2126}', 'ω', '\u{023A}', '\u{2C65}',
 ];
 
 const MARKERS: [char; 12] = ['①', '②', '③', '④', '⑤', '⑥', '⑦', '⑧', '⑨', '⑩', '⑪', '⑫'];
@@ -238,7 +240,11 @@ impl<'a> G15<'a> {
                 if self.rng.chance(1, 3) {
                     // equal or case-variant arguments make the interesting cases frequent
                     let first = args[0].clone();
-                    args[1] = if self.rng.chance(1, 2) { first } else { format!("(string-upcase {})", first) };
+                    args[1] = match self.rng.below(4) {
+                        0 | 1 => first,
+                        2 => format!("(string-upcase {})", first),
+                        _ => format!("(string-downcase {})", first),
+                    };
                 }
                 let op = *self.rng.pick(&["string=?", "string<?", "string>?", "string<=?", "string>=?", "string-ci=?", "string-ci<?", "string-ci>?", "string-ci<=?", "string-ci>=?"]);
                 (format!("({} {})", op, args.join(" ")), "string-compare")
